@@ -14,3 +14,8 @@ def build(repo, tier, seed):
     r.explanation = ("C14: exceptional postcondition 'nothing escapes' on HdlcFrameReader.read/_read_next, ModeDReader.read, HdlcFrame and DataReadout message properties, data_received; "
                      "the reader invariants are re-established by every call (the reader remains usable), for every state satisfying the invariant and every bytes argument")
     return r
+
+def fallback(repo, tier, seed):
+    from pyvc import run
+    b = run.rt_call("C14", "bounded_search", {"seed": seed, "n": 600 if tier == "quick" else 6000})
+    return [b if "name" in b else {"name": "bounded_search", "error": b.get("error", b)}]
